@@ -195,14 +195,20 @@ def _is_cm(f: ast.FunctionDef) -> bool:
 
 
 class _ReplaceYield(ast.NodeTransformer):
-    def __init__(self, body):
+    def __init__(self, body, as_name=None, binding=None):
         self.body = body
+        self.as_name = as_name
+        self.binding = binding or {}
         self.n = 0
 
     def visit_Expr(self, node):
-        if isinstance(node.value, ast.Yield) and node.value.value is None:
+        if isinstance(node.value, ast.Yield):
             self.n += 1
-            return [copy.deepcopy(b) for b in self.body]
+            out = []
+            if node.value.value is not None and self.as_name is not None:
+                out.append(ast.copy_location(ast.Assign(targets=[ast.Name(id=self.as_name, ctx=ast.Store())],
+                                                        value=copy.deepcopy(node.value.value)), node))
+            return out + [copy.deepcopy(b) for b in self.body]
         return node
 
     def visit_FunctionDef(self, node):
@@ -219,8 +225,9 @@ def splice_cm(tree: ast.Module, ref_private: set) -> int:
             if not _is_new_private(f.name, prefix + f.name, ref_private) or not _is_cm(f) or len(f.decorator_list) != 1:
                 continue
             yields = [x for x in ast.walk(f) if isinstance(x, (ast.Yield, ast.YieldFrom))]
-            if len(yields) != 1 or not isinstance(yields[0], ast.Yield) or yields[0].value is not None:
+            if len(yields) != 1 or not isinstance(yields[0], ast.Yield):
                 continue
+            yields_value = yields[0].value is not None
             if any(isinstance(x, ast.Return) for x in ast.walk(f)):
                 continue
             a = f.args
@@ -230,9 +237,10 @@ def splice_cm(tree: ast.Module, ref_private: set) -> int:
             refs = _refs(tree, f.name, is_class)
             sites = []
             for n in ast.walk(tree):
-                if isinstance(n, ast.With) and len(n.items) == 1 and n.items[0].optional_vars is None:
+                if isinstance(n, ast.With) and len(n.items) == 1:
                     ce = n.items[0].context_expr
-                    if isinstance(ce, ast.Call) and any(ce.func is r for r in refs):
+                    ov = n.items[0].optional_vars
+                    if isinstance(ce, ast.Call) and any(ce.func is r for r in refs) and ((ov is None and not yields_value) or (isinstance(ov, ast.Name) and yields_value)):
                         sites.append(n)
             if not sites or len(sites) != len(refs):
                 continue
@@ -258,7 +266,8 @@ def splice_cm(tree: ast.Module, ref_private: set) -> int:
                 new = []
                 for b in hbody:
                     nb = _Subst(binding).visit(copy.deepcopy(b))
-                    r = _ReplaceYield(w.body)
+                    ov = w.items[0].optional_vars
+                    r = _ReplaceYield(w.body, ov.id if isinstance(ov, ast.Name) else None)
                     nb = r.visit(nb)
                     new.extend(nb if isinstance(nb, list) else [nb])
                 plans.append((w, new))
